@@ -243,7 +243,7 @@ static void vary_cfg(sqfs_compressor_config_t *cfg, int sel)
 
 static int do_cz(char *args)
 {
-	int id, level, order;
+	int id, level, order, ro = 0;
 	unsigned long long seed;
 	unsigned long size;
 	sqfs_compressor_config_t cfg, ucfg;
@@ -251,7 +251,7 @@ static int do_cz(char *args)
 	unsigned char *in, *o1, *o2, *back;
 	sqfs_s32 r1, r2, r0;
 
-	if (sscanf(args, "%d %d %llu %lu %d", &id, &level, &seed, &size, &order) != 5)
+	if (sscanf(args, "%d %d %llu %lu %d %d", &id, &level, &seed, &size, &order, &ro) < 5)
 		return 0;
 	if (size < 16 || size > 65536)
 		size = 4096;
@@ -274,6 +274,29 @@ static int do_cz(char *args)
 	back = malloc(size);
 	for (unsigned long i = 0; i < size; ++i)
 		in[i] = (prng(&seed) % 5 == 0) ? (unsigned char)prng(&seed) : (unsigned char)('a' + i % 7);
+	if (ro != 0) {
+		/* history: options read from an image (written by a compressor with option set ro; ro < 0: a gzip record with
+		   an unsupported window size).  Whatever read_options answers, original and copy have to agree afterwards. */
+		sqfs_file_t *f = gfile_create();
+		sqfs_super_t super;
+		sqfs_super_init(&super, 65536, 0, id);
+		sqfs_super_write(&super, f);
+		if (ro > 0) {
+			sqfs_compressor_config_t bcfg;
+			sqfs_compressor_t *b = NULL;
+			sqfs_compressor_config_init(&bcfg, id, 65536, 0);
+			vary_cfg(&bcfg, ro);
+			if (sqfs_compressor_create(&bcfg, &b) == 0) {
+				b->write_options(b, f);
+				sqfs_drop(b);
+			}
+		} else {
+			unsigned char rec[10] = { 8, 0x80, 5, 0, 0, 0, 20, 0, 0, 0 };
+			f->write_at(f, sizeof(super), rec, sizeof(rec));
+		}
+		printf("READOPT c=%d u=%d\n", c1->read_options(c1, f), u1->read_options(u1, f));
+		sqfs_drop(f);
+	}
 	r0 = c1->do_block(c1, in, size, o1, size);     /* history before the copy */
 	c2 = sqfs_copy(c1);
 	u2 = sqfs_copy(u1);
